@@ -106,7 +106,7 @@ type Verif18Messages struct {
 	recv chan *conn.Message
 }
 
-func (m *Verif18Messages) Send(msg *conn.Message) error { m.Sent = append(m.Sent, msg); return nil }
+func (m *Verif18Messages) Send(msg *conn.Message) error   { m.Sent = append(m.Sent, msg); return nil }
 func (m *Verif18Messages) Receiver() <-chan *conn.Message { return m.recv }
 func (m *Verif18Messages) Close()                         {}
 
@@ -118,7 +118,7 @@ func (verif18Events) PeerRemoved(core.PeerID, core.InfoHash) {}
 type verif18NoEvents struct{}
 
 func (verif18NoEvents) Produce(*networkevent.Event) {}
-func (verif18NoEvents) Close() error               { return nil }
+func (verif18NoEvents) Close() error                { return nil }
 
 // Verif18NewDispatcher builds a dispatcher over t without the background
 // request watcher (timers never fire under the engine).
